@@ -506,6 +506,32 @@ pub fn run(session: &Session) -> i32 {
     for p in constant_failure_programs() {
         cases.push(json!({"src": "constant-failure", "text": p}));
     }
+    {
+        // constant operations on boundary operands are evaluated while parsing
+        use crate::props::c08::{float_grid, int_grid, lit_float};
+        let ints: Vec<String> = int_grid().into_iter().map(|i| crate::lit::to_text(&json!(i))).collect();
+        for op in ["+", "-", "*", "/", "%", "**", "<<", ">>", "&", "|", "^", "==", "<", ">="] {
+            for a in &ints {
+                for b in &ints {
+                    cases.push(json!({"src": "constant-folding", "text": format!("{a} {op} {b}")}));
+                }
+            }
+        }
+        let floats: Vec<String> = float_grid().into_iter().map(lit_float).collect();
+        for op in ["+", "-", "*", "/", "**", "<", "=="] {
+            for a in &floats {
+                for b in &floats {
+                    cases.push(json!({"src": "constant-folding", "text": format!("{a} {op} {b}")}));
+                }
+            }
+        }
+        for a in &ints {
+            for t in ["-{}", "!{}", "[1, 2, 3][{}]", "[1, 2, 3][{}:]", "[1, 2, 3][::{}]", "\"abc\"[{}]", "[0; {}]", "x := {}; y := x % -1; z := x / -1",
+                      "x := {}; [x, x][x]", "(x, y) := ({}, 2); x << y", "if {} == 0 { 1 } else { 2 }", "while {} < 0 { break; }"] {
+                cases.push(json!({"src": "constant-folding", "text": t.replace("{}", a)}));
+            }
+        }
+    }
     for p in import_programs() {
         cases.push(json!({"src": "imports", "text": p}));
     }
@@ -522,7 +548,7 @@ pub fn run(session: &Session) -> i32 {
         session.run_tapes(&C03, session.tier.of(60_000, 3_000_000), 400, 0);
     }
     let code = session.finish(
-        "inputs fed to Code::parse (against an interpreter with stdlib and bound names, and against an empty one), Code::return_type, Error::to_string, Variable::from_str and Type::from_str: every sequence of 1-2 tokens (quick; 1-3 thorough) over a 138-token alphabet (all keywords, every operator, brackets, literal samples incl. a too-big int, bound and unbound identifiers, composite fragments) plus unfinished-construct prefixes x token x closer, random token sequences up to length 16/24, random derivations of the project's own pest grammar read at run time (start rules input/line/stm/expr/function/match/type/only_var/slicing; identifiers mapped onto bound names), token-level mutations (delete/duplicate/swap/replace/insert) of the README, docs and example scripts, the operator x operand-type matrix (every unary/postfix/statement template, every infix and assignment operator and 28 two-operand templates applied to parameters of 60 types incl. `!`, `any` and unions of arrays, tuples, structs, muts, functions and iterators), 10 always-failing constant operations in 28 syntactic positions, and imports of 13 file states (missing, directory, syntax error, type error, folding error, non-UTF-8, nested, empty, top-level return/break) in 11 positions. Oracle: no panic. Non-trivial = the text passes the grammar (reaches instruction construction); distinct by text.",
+        "(constant-folding: every pair of the i64 and f64 boundary grids under every foldable operator, and boundary ints in index, slice, length and propagated-binding positions) inputs fed to Code::parse (against an interpreter with stdlib and bound names, and against an empty one), Code::return_type, Error::to_string, Variable::from_str and Type::from_str: every sequence of 1-2 tokens (quick; 1-3 thorough) over a 138-token alphabet (all keywords, every operator, brackets, literal samples incl. a too-big int, bound and unbound identifiers, composite fragments) plus unfinished-construct prefixes x token x closer, random token sequences up to length 16/24, random derivations of the project's own pest grammar read at run time (start rules input/line/stm/expr/function/match/type/only_var/slicing; identifiers mapped onto bound names), token-level mutations (delete/duplicate/swap/replace/insert) of the README, docs and example scripts, the operator x operand-type matrix (every unary/postfix/statement template, every infix and assignment operator and 28 two-operand templates applied to parameters of 60 types incl. `!`, `any` and unions of arrays, tuples, structs, muts, functions and iterators), 10 always-failing constant operations in 28 syntactic positions, and imports of 13 file states (missing, directory, syntax error, type error, folding error, non-UTF-8, nested, empty, top-level return/break) in 11 positions. Oracle: no panic. Non-trivial = the text passes the grammar (reaches instruction construction); distinct by text.",
         false,
         &["inputs nested deeper than 40 brackets and imports outside the scratch directory are discarded and counted",
           "the working directory of the check process is a scratch directory"],
